@@ -202,6 +202,19 @@ def run(ctx, chk, tier):
             continue
         j = v.args[1]
         call = v.args[2]
+        # R13.9 the buffer that receives the (interpolated) quantiles is floating point
+        buf = v
+        while isinstance(buf, App) and buf.fn in ("store", "after_loop", "carried", "reshape") and buf.args:
+            buf = buf.args[0]
+        flt = isinstance(buf, App) and ((buf.fn in ("empty", "zeros", "ones", "full") and buf.kwd("dtype") is None)
+                                        or (buf.fn.endswith("_like") and buf.kwd("dtype") == Const("float")))
+        if flt:
+            chk.hold("R13.9", method + ":limit-buffer", "limits are stored into a float64 buffer: %s" % show(buf, 80))
+        elif isinstance(buf, App) and (buf.fn in ("empty", "zeros", "ones", "full") or buf.fn.endswith("_like")):
+            chk.violation("R13.9", Q, method + ":limit-buffer", "limits stored into %s (dtype of the replicates / a non-float dtype: interpolated quantiles are truncated for integer metrics)" % show(buf, 120),
+                          "a floating-point buffer, e.g. np.empty((metric_size, 2))", ctx.where(Q))
+        else:
+            chk.unknown("R13.9", "%s: buffer receiving the limits not recognised: %s" % (method, show(buf, 100)))
         if not (isinstance(call, App) and call.fn in ("nanquantile", "quantile")):
             chk.unknown("R13.5", "%s: component value is not a quantile call" % method)
             continue
